@@ -59,13 +59,11 @@ impl Default for Options {
 
 pub trait Parse: Sized {
 	fn parse_slice(content: &[u8]) -> Result<(Self, CodeMap), Error> {
-		Self::parse_utf8(utf8_decode::Decoder::new(content.iter().copied()))
-			.map_err(Error::io_into_utf8)
+		Self::parse_utf8(decode_utf8(content)).map_err(Error::io_into_utf8)
 	}
 
 	fn parse_slice_with(content: &[u8], options: Options) -> Result<(Self, CodeMap), Error> {
-		Self::parse_utf8_with(utf8_decode::Decoder::new(content.iter().copied()), options)
-			.map_err(Error::io_into_utf8)
+		Self::parse_utf8_with(decode_utf8(content), options).map_err(Error::io_into_utf8)
 	}
 
 	fn parse_str(content: &str) -> Result<(Self, CodeMap), Error> {
@@ -146,6 +144,27 @@ pub trait Parse: Sized {
 	) -> Result<Meta<Self, usize>, Error<E>>
 	where
 		C: Iterator<Item = Result<DecodedChar, E>>;
+}
+
+/// Decodes `content` as UTF-8.
+///
+/// Yields the characters of the longest well-formed prefix of `content`,
+/// followed by an error if `content` is not entirely well-formed UTF-8
+/// (overlong forms, encoded surrogates and code points above U+10FFFF are
+/// ill-formed).
+fn decode_utf8(content: &[u8]) -> impl '_ + Iterator<Item = Result<char, io::Error>> {
+	let (valid, error) = match core::str::from_utf8(content) {
+		Ok(valid) => (valid, None),
+		Err(e) => {
+			let (valid, _) = content.split_at(e.valid_up_to());
+			// Safety: `valid_up_to` is the length of the longest well-formed prefix.
+			let valid = unsafe { core::str::from_utf8_unchecked(valid) };
+			let e = io::Error::new(io::ErrorKind::InvalidData, e);
+			(valid, Some(Err(e)))
+		}
+	};
+
+	valid.chars().map(Ok).chain(error)
 }
 
 /// JSON parser.
